@@ -26,3 +26,238 @@ def correspond(ctx):
 
 def replay(payload):
     return ctrl_check.replay(payload, PROPERTY)
+
+
+# ----------------------------------------------------------------------------- worker side (runner/entrypoint.py wait loop)
+LEAN_PROPS = ["EkwVerif.Props.C02", "EkwVerif.Props.C02Worker"]
+LEAN_DRIVERS = ["Ctrl", "C02W"]
+
+
+class _Done(Exception):
+    pass
+
+
+def _worker_job(rng):
+    """small job: tasks t0..tn-1, each with 1-2 outputs and inputs from earlier tasks; returns (JobInstance, spec)"""
+    from ekw import sim_ctrl as S
+    spec = S.gen_job(rng, 6, allow_gpu=False)
+    while not spec["tasks"]:
+        spec = S.gen_job(rng, 6, allow_gpu=False)
+    return S.build_job(spec), spec
+
+
+def _gen_worker_history(rng, spec):
+    """messages: ("task", [t...]) | ("pub", [t,k]) | ("purge", [t,k]) | ("shutdown",)"""
+    n = len(spec["tasks"])
+    allds = [[t, k] for t in range(n) for k in range(spec["tasks"][t]["nOut"])]
+    msgs = []
+    for _ in range(rng.randint(2, 14)):
+        r = rng.random()
+        if r < 0.3:
+            k = rng.randint(1, min(2, n))
+            ts = sorted(rng.sample(range(n), k))
+            msgs.append(("task", ts))
+        elif r < 0.85:
+            msgs.append(("pub", rng.choice(allds)))
+        elif r < 0.97:
+            msgs.append(("purge", rng.choice(allds)))
+        else:
+            msgs.append(("shutdown",))
+    return msgs
+
+
+def _required(spec, ts):
+    req = []
+    for t in ts:
+        for d in spec["tasks"][t]["params"]:
+            if d not in req:
+                req.append(d)
+    own = [[t, k] for t in ts for k in range(spec["tasks"][t]["nOut"])]
+    return [d for d in req if d not in own]
+
+
+def run_worker_real(job, spec, msgs):
+    """drive the REAL entrypoint() in-process; returns one canonical output per message"""
+    import types
+    import cascade.executor.runner.entrypoint as ep
+    import cascade.executor.serde as serde
+    from cascade.executor.msg import DatasetPublished, DatasetPurge, TaskSequence, WorkerShutdown
+    from cascade.low.core import DatasetId, WorkerId
+    from cascade.low.views import param_source
+    wid = WorkerId("h0", "w0")
+    raw = []
+    for m in msgs:
+        if m[0] == "task":
+            raw.append(serde.ser_message(TaskSequence(worker=wid, tasks=[f"t{t}" for t in m[1]], publish=set())))
+        elif m[0] == "pub":
+            raw.append(serde.ser_message(DatasetPublished(origin=wid, ds=DatasetId(f"t{m[1][0]}", str(m[1][1])), transmit_idx=None)))
+        elif m[0] == "purge":
+            raw.append(serde.ser_message(DatasetPurge(ds=DatasetId(f"t{m[1][0]}", str(m[1][1])))))
+        else:
+            raw.append(serde.ser_message(WorkerShutdown()))
+    record = []
+
+    class Sock:
+        def bind(self, a):
+            pass
+
+        def recv(self):
+            record.append(("recv",))
+            if not raw:
+                raise _Done()
+            return raw.pop(0)
+
+    class Ctx:
+        def socket(self, k):
+            return Sock()
+
+    class Mem:
+        def __init__(self, cb, worker):
+            pass
+
+        def __enter__(self):
+            return self
+
+        def __exit__(self, *a):
+            return False
+
+        def provide(self, ds, ann):
+            record.append(("provide", [int(ds.task[1:]), int(ds.output)]))
+
+        def pop(self, ds):
+            record.append(("pop", [int(ds.task[1:]), int(ds.output)]))
+
+        def flush(self):
+            pass
+
+    class Pk:
+        def __enter__(self):
+            return self
+
+        def __exit__(self, *a):
+            return False
+
+        def extend(self, l):
+            pass
+
+    saved = (ep.zmq, ep.callback, ep.Memory, ep.PackagesEnv, ep.execute_sequence, ep.logging_config)
+    ep.zmq = types.SimpleNamespace(Context=Ctx, PULL=0)
+    ep.callback = lambda addr, msg: None
+    ep.Memory, ep.PackagesEnv = Mem, Pk
+    ep.execute_sequence = lambda ts, mem, pk, rc: record.append(("exec", [int(t[1:]) for t in ts.tasks]))
+    ep.logging_config = {"version": 1, "disable_existing_loggers": False}
+    try:
+        rc = ep.RunnerContext(workerId=wid, job=job, callback="cb", param_source=param_source(job.edges))
+        try:
+            ep.entrypoint(rc)
+            record.append(("returned",))
+        except _Done:
+            pass
+        except Exception as e:
+            record.append(("raised", f"{type(e).__name__}: {e}"[:60]))
+    finally:
+        ep.zmq, ep.callback, ep.Memory, ep.PackagesEnv, ep.execute_sequence, ep.logging_config = saved
+    # segment per message
+    segs, cur = [], None
+    for r in record:
+        if r[0] == "recv":
+            if cur is not None:
+                segs.append(cur)
+            cur = []
+        elif cur is not None:
+            cur.append(r)
+    if cur is not None and len(segs) < len(msgs):
+        segs.append(cur)
+    outs = []
+    for seg in segs[:len(msgs)]:
+        kinds = [r[0] for r in seg]
+        if "raised" in kinds:
+            outs.append({"out": "raised"})
+        elif "exec" in kinds:
+            outs.append({"out": "executed", "tasks": [r for r in seg if r[0] == "exec"][0][1]})
+        elif "returned" in kinds:
+            outs.append({"out": "stop"})
+        elif "provide" in kinds:
+            outs.append({"out": "provided", "ds": sorted(r[1] for r in seg if r[0] == "provide")})
+        else:
+            outs.append({"out": "nothing"})
+    return outs
+
+
+def correspond_worker(ctx):
+    import json
+    import random
+    from ekw.core import lean_drive
+    n = ctx.budget(150, 5000)
+    lines, cases = [], []
+    for _ in range(n):
+        seed = ctx.rng.randrange(1 << 30)
+        rng = random.Random(seed)
+        job, spec = _worker_job(rng)
+        msgs = _gen_worker_history(rng, spec)
+        try:
+            real = run_worker_real(job, spec, msgs)
+        except Exception as e:   # harness-level trouble with the real entrypoint is a disagreement, not a crash
+            ctx.disagree("worker-entrypoint-drive", {"spec": spec, "msgs": msgs}, "drivable", f"{type(e).__name__}: {e}")
+            continue
+        ids = {}
+        ml = [json.dumps({"op": "reset"})]
+        for i, m in enumerate(msgs):
+            if m[0] == "task":
+                ids[i] = m[1]
+                ml.append(json.dumps({"op": "task", "id": i, "req": _required(spec, m[1])}))
+            elif m[0] == "pub":
+                ml.append(json.dumps({"op": "pub", "ds": m[1]}))
+            elif m[0] == "purge":
+                ml.append(json.dumps({"op": "purge", "ds": m[1]}))
+            else:
+                ml.append(json.dumps({"op": "shutdown"}))
+        lines += ml
+        cases.append((spec, msgs, real, ids))
+        waits = any(o["out"] == "provided" for o in real)
+        ctx.case({"worker_history": msgs, "tasks": len(spec["tasks"])}, nontrivial=waits)
+        ctx.count("worker_histories")
+        for o in real:
+            ctx.count("worker_out:" + o["out"])
+        # oracle (property text): execution only after every required dataset has been announced to this worker
+        seen = []
+        for i, (m, o) in enumerate(zip(msgs, real)):
+            if m[0] == "pub" and m[1] not in seen:
+                seen.append(m[1])
+            if o["out"] == "executed":
+                for d in _required(spec, o["tasks"]):
+                    if d not in seen:
+                        ctx.violation({"kind": "worker-started-before-input-announced"}, {"spec": spec, "msgs": msgs[:i + 1]},
+                                      f"worker entered execute_sequence for tasks {o['tasks']} although dataset {d} was never announced to it")
+    out = lean_drive("C02W", lines)
+    k = 0
+    for spec, msgs, real, ids in cases:
+        k += 1   # reset line
+        mo = [json.loads(x) for x in out[k:k + len(msgs)]]
+        k += len(msgs)
+        ctx.traces += 1
+        dead = False
+        for i, (m, r) in enumerate(zip(msgs, real)):
+            o = mo[i]
+            if o.get("out") == "dead":
+                break
+            o = o["o"]
+            if o["out"] == "executed":
+                want = {"out": "executed", "tasks": ids.get(o["id"])}
+            elif o["out"] == "provided":
+                want = {"out": "provided", "ds": sorted(o["ds"])} if o["ds"] else {"out": "nothing"}
+            else:
+                want = {"out": o["out"]}
+            if want != r:
+                ctx.disagree("worker-wait-loop", {"spec": spec, "msgs": msgs[:i + 1]}, want, r)
+                break
+            if r["out"] in ("raised", "stop"):
+                break
+
+
+_ctrl_correspond = correspond
+
+
+def correspond(ctx):   # noqa: F811
+    _ctrl_correspond(ctx)
+    correspond_worker(ctx)
